@@ -270,7 +270,25 @@ def job_cp(j):
         one_shape(col, n, edges, rng, variants, sample=(count % 100 == 0))
         count += 1
         col.counters["random_shapes"] += 1
-    return col.result()
+    res = col.result()
+    if j.get("pid") and j["pid"] != "C07":
+        # the same workload under another property (C06): only the ORDER observations are that property's clauses
+        keep = []
+        for v in res["violations"]:
+            if v["mech"].startswith("order_not_the_unique_greedy_order"):
+                keep.append(dict(v, prop=j["pid"], mech=v["mech"].replace("order_not_the_unique_greedy_order", "start_order_is_not_by_compound_priority"),
+                                 replay=dict(v["replay"], pid=j["pid"])))
+        res["violations"] = keep
+    return res
+
+
+def _remap(res, pid):
+    keep = []
+    for v in res["violations"]:
+        if v["mech"].startswith("order_not_the_unique_greedy_order"):
+            keep.append(dict(v, prop=pid, mech=v["mech"].replace("order_not_the_unique_greedy_order", "start_order_is_not_by_compound_priority")))
+    res["violations"] = keep
+    return res
 
 
 def _replay_cp(j, rp):
@@ -281,6 +299,8 @@ def _replay_cp(j, rp):
     sp = mk_spec(rp["n"], [tuple(e) for e in rp["edges"]], rp["prios"])
     d, _e, _p = S.build_tawazi(sp)
     check_table(col, "call", dict(d.graph_ids.compound_priority), S.cp_spec(sp), S.node_ids(sp), set(range(rp["n"])), rp)
+    if rp.get("pid") and rp["pid"] != "C07":
+        return _remap(col.result(), rp["pid"])
     return col.result()
 
 
